@@ -91,7 +91,7 @@ def clause_i(ctx, fx):
 def clause_h(ctx, fx):
     """'…in both serialization formats': the JSON envelope the issuer / holder write can be read back (rule shared with C10.F4)"""
     import c10
-    c10.f4(common.RelabelCtx(ctx, "C01.h"), fx, "C01.h")
+    c10.f4(common.RelabelCtx(ctx, "C01.h", keep=("envelope-member", "envelope-names")), fx, "C01.h")
 
 
 def clause_g(ctx, fx):
